@@ -1,4 +1,4 @@
-use vlib::{core::*, eeprom_checks as ec};
+use vlib::{core::*, eeprom_checks as ec, sim_sii as ss};
 
 fn main() {
     let args = parse_args();
@@ -25,9 +25,32 @@ fn main() {
         }
     };
 
+    let run_dev = |c: &ss::SiiDevCase, info: &mut CaseInfo| match catch(|| {
+        let mut i2 = CaseInfo::default();
+        let r = ss::run_sii_dev(c, "C12", &mut i2);
+        (r, i2)
+    }) {
+        Ok((r, i2)) => {
+            *info = i2;
+            r
+        }
+        Err(p) => {
+            let site = panic_site(&p);
+
+            if is_repo_site(&site) { Err(Fail::new(format!("C12|panic|{site}"), p)) } else { Err(Fail::new(format!("harness-panic|{site}"), p)) }
+        }
+    };
+
     install_crash_guard("C12");
 
     if let Some(path) = &args.replay {
+        if replay_kind(path) == "sii-device-path" {
+            let (_k, case): (String, ss::SiiDevCase) = load_replay(path);
+            let mut info = CaseInfo::default();
+
+            finish_replay("C12", path, run_dev(&case, &mut info));
+        }
+
         let (_k, case): (String, ec::C12Case) = load_replay(path);
         let mut info = CaseInfo::default();
 
@@ -40,9 +63,11 @@ fn main() {
     check.rule = ec::C12_RULE.to_string();
     check.assumptions = vec![
         "images come from an independent SII encoder written from ETG.1000.6 / ETG.2010 (harness/vlib/src/sii.rs); only fields whose position is unambiguous in the specification are compared".into(),
-        "queries run through the verif-hooks facade SiiQueries over an in-memory EepromDataProvider serving 4 or 8 byte chunks (the device path through the SII registers is exercised by the simulator-based checks)".into(),
+        "queries run through the verif-hooks facade SiiQueries over an in-memory EepromDataProvider serving 4 or 8 byte chunks ; a second sub-run asks the same questions through the SII registers of a simulated device (command register, busy polling, command errors)".into(),
     ];
 
     check.run_prop("h4-images", 16, tier.pick(1_500, 40_000), ec::c12_case, run);
+    // the same questions through the SII interface of a simulated device
+    check.run_prop("sii-device-path", 16, tier.pick(300, 6_000), ss::sii_dev_case, run_dev);
     check.finish();
 }
